@@ -11,8 +11,8 @@ EVIDENCE = dict(
     level="model_checking",
     rule="select: every sequence of <= 2 builder calls (Pages with <= 2 arguments from 0..4, PageRange over 0..4 incl. reversed) on a "
          "3-page document, expectation = set semantics computed by PageSelect.tla, checked through Text(), Document() page numbers "
-         "and Chunks() page metadata. lifecycle: every history of 4 operations (derive good/bad, PageCount, Text, Close) over <= 3 "
-         "extractors from Lifecycle.tla replayed on real extractors with /proc/self/fd counted after each step; recorded histories "
+         "and Chunks() page metadata. lifecycle: every history of 4 operations (derive with Pages(4) / Pages(5) / PageRange(1,3) / Pages(99) / ByColumn, PageCount, "
+         "Text, Close) over <= 4 extractors from Lifecycle.tla replayed on real extractors with /proc/self/fd counted after each step; recorded histories "
          "validated by LifecycleTrace.tla. Non-trivial = selection other than 'all pages' / history with >= 2 operations.",
     assumptions=["pdfdoc renders the 3-page document faithfully", "/proc/self/fd counts the process's descriptors"],
 )
@@ -21,7 +21,8 @@ EVIDENCE = dict(
 def run(ctx):
     q = ctx.tier == "quick"
     ctx.tlc("LifecycleMC", "Lifecycle_mc.cfg")
-    ctx.tlc("LifecycleMC", "Lifecycle_mc_impl.cfg", expect_violation=True)
+    ctx.tlc("LifecycleMC", "Lifecycle_mc_impl.cfg", expect_violation=True)     # clone() shares the reader pointer
+    ctx.tlc("LifecycleMC", "Lifecycle_mc_alias.cfg", expect_violation=True)    # clone() reuses the page slice (Go append aliasing)
     sel = ctx.tlc("PageSelectMC", "PageSelect_gen.cfg" if q else "PageSelect_gen_thorough.cfg", workers=1, collect=True, timeout=1800)
     life = ctx.tlc("LifecycleMC", "Lifecycle_gen.cfg" if q else "Lifecycle_gen_thorough.cfg", workers=1, collect=True, count=False, timeout=1800)
     if not sel["cases"] or not life["cases"]:
